@@ -537,6 +537,8 @@ struct Env {
     dmaxload: Vec<usize>,            // per dispatch: largest queued + in progress over all workers right after the send
     faults_at_accept: usize,         // number of fault reports when the connection in hand was accepted
     in_hand: Option<usize>,
+    wk_at_accept: usize,
+    wk_pushed_since: usize,
     points: Vec<(String, usize)>,
     anchored: Vec<(String, usize, Act, bool)>, // kind, nth (1-based, per iteration), action, fired
     point_counts: HashMap<String, usize>,
@@ -771,6 +773,7 @@ impl Env {
                     stop_reply_at: -1,
                 };
                 self.wq.wake(WakerInterest::Worker(handle));
+                self.wk_pushed_since += 1;
             }
             Act::Pause => self.wq.wake(WakerInterest::Pause),
             Act::Resume => self.wq.wake(WakerInterest::Resume),
@@ -1092,6 +1095,8 @@ impl Sim {
             davail: vec![],
             faults_at_accept: 0,
             in_hand: None,
+            wk_at_accept: 0,
+            wk_pushed_since: 0,
             points: vec![],
             anchored: vec![],
             point_counts: HashMap::new(),
@@ -1202,6 +1207,10 @@ impl Sim {
                 if cid >= 0 {
                     e.accepted.push(cid as usize);
                     e.in_hand = Some(cid as usize);
+                    // replacement handles still waiting in the waker queue while this connection is in hand
+                    let n = e.wq.guard().iter().filter(|i| matches!(i, WakerInterest::Worker(_))).count();
+                    e.wk_at_accept = n;
+                    e.wk_pushed_since = 0;
                 }
             }))
         });
@@ -1237,7 +1246,13 @@ impl Sim {
             Err(_) => return 0, // a panic unwound through the callback while env was borrowed
         };
         if let Some(cid) = e.in_hand.take() {
-            let no_handle = self.st.snapshot(e.cfg.workers).handles.is_empty();
+            // handles at the moment of the drop = handles now minus the replacement handles the accept thread took off the
+            // waker queue AFTER this connection was accepted (a replacement stored later in the same iteration does not
+            // make the drop a wrong one)
+            let wk_now = e.wq.guard().iter().filter(|i| matches!(i, WakerInterest::Worker(_))).count();
+            let popped_after = (e.wk_at_accept + e.wk_pushed_since).saturating_sub(wk_now);
+            let handles_now = self.st.snapshot(e.cfg.workers).handles.len();
+            let no_handle = handles_now <= popped_after;
             e.dropped.push((cid, no_handle));
         }
         let missed: Vec<(usize, Act)> = e
